@@ -1155,9 +1155,8 @@ def monitor_roundtrip(family: str, spec, obj, dec) -> list[Fail]:
         top = sorted({d.split(".")[1].split("[")[0] if "." in d else d for d in diffs})
         if family == "results":
             # documented: numpy arrays come back as lists ("their original class is lost forever")
-            a2, b2 = _results_lenient(a), _results_lenient(b)
-            if value_key(a2) == value_key(b2):
-                top, diffs = [], []
+            diffs = diff_values(_results_lenient(a), _results_lenient(b))
+            top = sorted({d.split(".")[1].split("[")[0] if "." in d else d for d in diffs})
         if family == "detmap":
             # the canonical (sorted) view is what equality is defined on; the as-given order is a field too
             top = sorted({("given" if d.startswith(".given") else "sorted") for d in diffs})
